@@ -371,6 +371,37 @@ func checkC14(c *km.Ctx) {
 			}
 		})
 		r.Add("R-C14-3", km.FuncName(gf), "last-check time updated", posOf(c, firstUpdate), "lastCheckTime = time.Now() stored into the map before leaving the critical section", sprintf("%v", nowStored), nowStored)
+		// ... on every way out of the gate once the spacing test passed: an update made under a condition (only for
+		// users already in the table, say) lets the others through the gate any number of times at once
+		{
+			skipped := ""
+			var all []string
+			ub := firstUpdate.Block()
+			for _, sc := range spacingIf.Block().Succs {
+				if sc == ub || !km.ReachableBlocks(sc, nil)[ub] {
+					continue // the refusing arm, or straight into the update
+				}
+				for blk := range km.ReachableBlocks(sc, map[*ssa.BasicBlock]bool{ub: true}) {
+					for _, in := range blk.Instrs {
+						switch x := in.(type) {
+						case *ssa.Return:
+							all = append(all, "the function can return at "+posOf(c, x)+" after passing the spacing test without having stored the new time")
+						case ssa.CallInstruction:
+							if n := km.CalleeFull(x.Common()); n == "(*sync.Mutex).Unlock" || n == "(*sync.RWMutex).Unlock" {
+								if _, isDefer := in.(*ssa.Defer); !isDefer {
+									all = append(all, "the mutex is released at "+posOf(c, in)+" after passing the spacing test without the new time having been stored")
+								}
+							}
+						}
+					}
+				}
+			}
+			sort.Strings(all)
+			if len(all) > 0 {
+				skipped = all[0]
+			}
+			r.Add("R-C14-3", km.FuncName(gf), "last-check time updated on every pass", posOf(c, firstUpdate), "no path from the passed spacing test leaves the critical section without going through the map update", skipped, skipped == "")
+		}
 		// spacing passed and not locked out before any decryption/validation
 		spacingPassed := km.Prim{Name: "spacing passed", Direct: func(f km.Fact) bool {
 			_, ok := spacingTestFact(f)
